@@ -25,12 +25,15 @@ Section Log.
   Definition reveals (k : lkind msg) : Prop :=
     match k with LText _ _ => False | LTree _ ms => reveals_tree ms | LDump _ b => reveals_dump b end.
 
+  (* L: an upper bound of the log level of the run. Byte dumps are written at level Trace (6) only, so the assumptions about
+     dumps are needed - and made - only when L reaches Trace *)
+  Variable L : N.
   (* assumptions about what is NOT secret *)
-  Hypothesis cipher_hides : forall iv p, ~ reveals_dump (fst (enc iv p)).
+  Hypothesis cipher_hides : lTrace <= L -> forall iv p, ~ reveals_dump (fst (enc iv p)).
   Hypothesis auth_tree_masked : ~ reveals_tree auth_req.            (* the password message has a secret tag *)
-  Hypothesis peer_no_echo : forall iv c, ~ reveals_dump (fst (dec iv c)).
+  Hypothesis peer_no_echo : lTrace <= L -> forall iv c, ~ reveals_dump (fst (dec iv c)).
   Hypothesis peer_no_echo_tree : forall buf pt ms b, decode_step buf pt = (Some (Some ms), b) -> ~ reveals_tree ms.
-  Definition innocent (ms : list msg) : Prop := ~ reveals_tree ms /\ forall ts, ~ reveals_dump (encode ts ms).
+  Definition innocent (ms : list msg) : Prop := ~ reveals_tree ms /\ (lTrace <= L -> forall ts, ~ reveals_dump (encode ts ms)).
 
   Notation event := (event msg).
   Notation world := (world msg E).
@@ -84,11 +87,11 @@ Section Log.
   Qed.
 
   (* sending: either the messages are innocent, or the level is at most Info so that the debug/trace records are not written *)
-  Lemma send_clean s w ms s' w' r : clean (out msg E w) ->
+  Lemma send_clean s w ms s' w' r : clean (out msg E w) -> level msg E w <= L ->
     (innocent ms \/ (~ reveals_tree ms /\ level msg E w <= lInfo)) ->
     send s w ms = (s', w', r) -> clean (out msg E w') /\ level msg E w' = level msg E w.
   Proof.
-    intros Hc Hok. unfold Client.send.
+    intros Hc HL Hok. unfold Client.send.
     destruct (negb (valid_req ms)); [intros [= <- <- <-]; auto|].
     destruct (cur msg E w) as [j|]; [|intros [= <- <- <-]; auto].
     assert (Htree : ~ reveals_tree ms) by (destruct Hok as [[A _]|[A _]]; exact A).
@@ -96,18 +99,19 @@ Section Log.
     set (w1 := log lDebug (LTree msg ms) w) in *.
     destruct (on_now E m (est msg E w1)) as [e1 ts].
     assert (Hplain : lTrace <=? level msg E w1 = true -> ~ reveals (LDump msg (encode ts ms))).
-    { intro Hl. destruct Hok as [[_ A]|[_ A]]; [apply A|]. apply N.leb_le in Hl. rewrite B1 in Hl. unfold lTrace, lInfo in *. lia. }
+    { intro Hl. apply N.leb_le in Hl. rewrite B1 in Hl. destruct Hok as [[_ A]|[_ A]]; [apply A; lia|]. unfold lTrace, lInfo in *. lia. }
     destruct (log_spec w1 lTrace (LDump msg (encode ts ms)) Hplain A1) as (A2 & B2 & _).
     set (w2 := log lTrace (LDump msg (encode ts ms)) w1) in *.
     destruct (enc (eiv s) (encode ts ms)) as [ct iv'] eqn:Ee.
-    assert (Hct : ~ reveals (LDump msg ct)).
-    { cbn. replace ct with (fst (enc (eiv s) (encode ts ms))) by (rewrite Ee; reflexivity). apply cipher_hides. }
-    destruct (log_spec w2 lTrace (LDump msg ct) (fun _ => Hct) A2) as (A3 & B3 & _).
+    assert (Hct : lTrace <=? level msg E w2 = true -> ~ reveals (LDump msg ct)).
+    { intro Hl. apply N.leb_le in Hl. rewrite B2, B1 in Hl.
+      cbn. replace ct with (fst (enc (eiv s) (encode ts ms))) by (rewrite Ee; reflexivity). apply cipher_hides. lia. }
+    destruct (log_spec w2 lTrace (LDump msg ct) Hct A2) as (A3 & B3 & _).
     set (w3 := log lTrace (LDump msg ct) w2) in *.
     set (w4 := emit msg E (EvSetWD msg j send_to) w3).
     assert (A4 : clean (out msg E w4)) by (cbn [w4 out Client.emit Client.upd app]; apply clean_cons_other; [other|exact A3]).
     assert (B4 : level msg E w4 = level msg E w) by (cbn [w4 level Client.emit Client.upd]; rewrite B3, B2, B1; reflexivity).
-    clearbody w4. clear w3 A3 B3 w2 A2 B2 Hplain.
+    clearbody w4. clear w3 A3 B3 Hct w2 A2 B2 Hplain.
     destruct (on_write E m e1 ct) as [[e' ok] d].
     destruct ((dur d <=? send_to)%Z && ok).
     - intros [= <- <- <-]. cbn [out level Client.upd app]. split; [|exact B4].
@@ -118,10 +122,10 @@ Section Log.
       destruct (disconnect _ wf) as [s2 w2']. cbn [snd] in *. intros [= <- <- <-]. split; [exact Ad|rewrite Bd; exact B4].
   Qed.
 
-  Lemma recv_clean : forall fuel deadline buf pend s w s' w' r, clean (out msg E w) ->
+  Lemma recv_clean : forall fuel deadline buf pend s w s' w' r, clean (out msg E w) -> level msg E w <= L ->
     recv_loop fuel deadline buf pend s w = (s', w', r) -> clean (out msg E w') /\ level msg E w' = level msg E w.
   Proof.
-    induction fuel as [|f IH]; intros deadline buf pend s w s' w' r Hc; cbn [Client.recv_loop].
+    induction fuel as [|f IH]; intros deadline buf pend s w s' w' r Hc HL; cbn [Client.recv_loop].
     - intros [= <- <- <-]. auto.
     - destruct (cur msg E w) as [j|]; [|intros [= <- <- <-]; auto].
       destruct (on_read E m (est msg E w) rbuf) as [[e' rr] d].
@@ -137,42 +141,44 @@ Section Log.
         assert (L1 : level msg E w1 = level msg E w) by reflexivity.
         destruct rr as [b| |]; [|apply Hclose; assumption|apply Hclose; assumption].
         destruct ((32 * (length (pend ++ b) / 32)) =? 0)%nat.
-        * intro H. destruct (IH _ _ _ _ _ _ _ _ H1 H) as [A B]. split; [exact A|rewrite B; exact L1].
+        * intro H. destruct (IH _ _ _ _ _ _ _ _ H1 ltac:(rewrite L1; exact HL) H) as [A B]. split; [exact A|rewrite B; exact L1].
         * destruct (dec (div s) (firstn _ (pend ++ b))) as [pt iv'] eqn:Ed.
           destruct (decode_step buf pt) as [[[rms|]|] buf'] eqn:Eds.
           -- intros [= <- <- <-].
-             assert (Hpt : ~ reveals (LDump msg pt)).
-             { cbn. replace pt with (fst (dec (div s) (firstn (32 * (length (pend ++ b) / 32)) (pend ++ b)))) by (rewrite Ed; reflexivity). apply peer_no_echo. }
-             destruct (log_spec w1 lTrace (LDump msg pt) (fun _ => Hpt) H1) as (A2 & B2 & _).
+             assert (Hpt : lTrace <=? level msg E w1 = true -> ~ reveals (LDump msg pt)).
+             { intro Hl. apply N.leb_le in Hl. rewrite L1 in Hl.
+               cbn. replace pt with (fst (dec (div s) (firstn (32 * (length (pend ++ b) / 32)) (pend ++ b)))) by (rewrite Ed; reflexivity). apply peer_no_echo. lia. }
+             destruct (log_spec w1 lTrace (LDump msg pt) Hpt H1) as (A2 & B2 & _).
              destruct (log_spec _ lTrace (LTree msg rms) (fun _ => peer_no_echo_tree _ _ _ _ Eds) A2) as (A3 & B3 & _).
              split; [exact A3|rewrite B3, B2; exact L1].
-          -- intro H. destruct (IH _ _ _ _ _ _ _ _ H1 H) as [A B]. split; [exact A|rewrite B; exact L1].
+          -- intro H. destruct (IH _ _ _ _ _ _ _ _ H1 ltac:(rewrite L1; exact HL) H) as [A B]. split; [exact A|rewrite B; exact L1].
           -- apply Hclose; assumption.
   Qed.
 
-  Lemma receive_clean fuel s w s' w' r : clean (out msg E w) -> receive fuel s w = (s', w', r) ->
+  Lemma receive_clean fuel s w s' w' r : clean (out msg E w) -> level msg E w <= L -> receive fuel s w = (s', w', r) ->
     clean (out msg E w') /\ level msg E w' = level msg E w.
   Proof.
-    intros Hc. unfold Client.receive. destruct (cur msg E w) as [j|]; [|intros [= <- <- <-]; auto].
-    intro H. apply recv_clean in H; [exact H|]. cbn [out Client.emit Client.upd app]. apply clean_cons_other; [other|exact Hc].
+    intros Hc HL. unfold Client.receive. destruct (cur msg E w) as [j|]; [|intros [= <- <- <-]; auto].
+    intro H. apply recv_clean in H; [exact H| |exact HL]. cbn [out Client.emit Client.upd app]. apply clean_cons_other; [other|exact Hc].
   Qed.
 
   (* authenticate: the level is lowered while the authentication frame is built and sent, and restored on every path *)
-  Lemma authenticate_clean fuel s w s' w' r : clean (out msg E w) -> level msg E w < auth_level ->
+  Lemma authenticate_clean fuel s w s' w' r : clean (out msg E w) -> level msg E w < auth_level -> level msg E w <= L ->
     authenticate fuel s w = (s', w', r) -> clean (out msg E w') /\ level msg E w' = level msg E w.
   Proof.
-    intros Hc Hl. unfold Client.authenticate.
+    intros Hc Hl HL. unfold Client.authenticate.
     destruct (N.ltb_spec (level msg E w) auth_level) as [_|Hge]; [|lia].
     destruct (log_spec w lInfo (LText msg 4) (fun _ F => F) Hc) as (A0 & B0 & _).
     set (w0 := set_level msg E (N.min (level msg E w) lInfo) (log lInfo (LText msg 4) w)).
     assert (Hc0 : clean (out msg E w0)) by exact A0.
     assert (Hl0 : level msg E w0 <= lInfo) by (cbn [w0 level Client.set_level]; lia).
     destruct (send s w0 auth_req) as [[s1 w1] r1] eqn:Es.
-    destruct (send_clean _ _ _ _ _ _ Hc0 (or_intror (conj auth_tree_masked Hl0)) Es) as [A1 B1].
+    assert (HL0 : level msg E w0 <= L) by (cbn [w0 level Client.set_level]; lia).
+    destruct (send_clean _ _ _ _ _ _ Hc0 HL0 (or_intror (conj auth_tree_masked Hl0)) Es) as [A1 B1].
     set (w1' := set_level msg E (level msg E w) w1).
     assert (Hc1 : clean (out msg E w1')) by exact A1.
     destruct r1 as [u|x]; [|intros [= <- <- <-]; split; [exact Hc1|reflexivity]].
-    destruct (receive fuel s1 w1') as [[s2 w2] [ms|x]] eqn:Er; destruct (receive_clean _ _ _ _ _ _ Hc1 Er) as [A2 B2].
+    destruct (receive fuel s1 w1') as [[s2 w2] [ms|x]] eqn:Er; destruct (receive_clean _ _ _ _ _ _ Hc1 HL Er) as [A2 B2].
     - destruct (auth_ok ms); intros [= <- <- <-]; [|split; [exact A2|rewrite B2; reflexivity]].
       set (wg := match cur msg E w2 with Some j => emit msg E (EvGranted msg j) w2 | None => w2 end).
       assert (Ag : clean (out msg E wg) /\ level msg E wg = level msg E w2).
@@ -182,10 +188,10 @@ Section Log.
     - intros [= <- <- <-]. split; [exact A2|rewrite B2; reflexivity].
   Qed.
 
-  Lemma send_multiple_clean fuel s w ms s' w' r : clean (out msg E w) -> level msg E w < auth_level -> innocent ms ->
+  Lemma send_multiple_clean fuel s w ms s' w' r : clean (out msg E w) -> level msg E w < auth_level -> level msg E w <= L -> innocent ms ->
     send_multiple fuel s w ms = (s', w', r) -> clean (out msg E w') /\ level msg E w' = level msg E w.
   Proof.
-    intros Hc Hl Hin. unfold Client.send_multiple.
+    intros Hc Hl HL Hin. unfold Client.send_multiple.
     assert (H0 : forall s0 w0 r0, (match cur msg E w with None => connect s w | Some _ => (s, w, Ok _ tt) end) = (s0, w0, r0) ->
                  clean (out msg E w0) /\ level msg E w0 = level msg E w).
     { intros s0 w0 r0. destruct (cur msg E w); [intros [= <- <- <-]; auto|]. apply connect_clean. exact Hc. }
@@ -195,31 +201,31 @@ Section Log.
     assert (H1 : forall s1 w1 r1, (if authed s0 then (s0, w0, Ok _ tt) else authenticate fuel s0 w0) = (s1, w1, r1) ->
                  clean (out msg E w1) /\ level msg E w1 = level msg E w).
     { intros s1 w1 r1. destruct (authed s0); [intros [= <- <- <-]; auto|].
-      intro H. destruct (authenticate_clean _ _ _ _ _ _ A0 ltac:(rewrite B0; exact Hl) H) as [A B]. split; [exact A|rewrite B; exact B0]. }
+      intro H. destruct (authenticate_clean _ _ _ _ _ _ A0 ltac:(rewrite B0; exact Hl) ltac:(rewrite B0; exact HL) H) as [A B]. split; [exact A|rewrite B; exact B0]. }
     destruct (if authed s0 then (s0, w0, Ok _ tt) else authenticate fuel s0 w0) as [[s1 w1] r1].
     destruct (H1 _ _ _ eq_refl) as [A1 B1].
     destruct r1 as [u1|x]; [|intros [= <- <- <-]; auto].
     destruct (send s1 w1 ms) as [[s2 w2] r2] eqn:Es.
-    destruct (send_clean _ _ _ _ _ _ A1 (or_introl Hin) Es) as [A2 B2].
+    destruct (send_clean _ _ _ _ _ _ A1 ltac:(rewrite B1; exact HL) (or_introl Hin) Es) as [A2 B2].
     destruct r2 as [u2|x]; [|intros [= <- <- <-]; split; [exact A2|rewrite B2; exact B1]].
-    intro H. destruct (receive_clean _ _ _ _ _ _ A2 H) as [A3 B3]. split; [exact A3|rewrite B3, B2; exact B1].
+    intro H. destruct (receive_clean _ _ _ _ _ _ A2 ltac:(rewrite B2, B1; exact HL) H) as [A3 B3]. split; [exact A3|rewrite B3, B2; exact B1].
   Qed.
 
   (* C11: for every log level below 99, every environment and every sequence of innocent calls,
      no record in the log reveals the password, and the level is what it was *)
-  Theorem C11_no_secret : forall calls e l, l < auth_level ->
+  Theorem C11_no_secret : forall calls e l, l < auth_level -> l <= L ->
     Forall (fun c => match c with CSend _ _ ms => innocent ms | CDisconnect _ => True end) calls ->
     let w := snd (run (init_state iv0) (init_world msg E e l) calls) in
     clean (out msg E w) /\ level msg E w = l.
   Proof.
-    intros calls e l Hl Hcalls.
+    intros calls e l Hl HL Hcalls.
     assert (G : forall cs s w, Forall (fun c => match c with CSend _ _ ms => innocent ms | CDisconnect _ => True end) cs ->
                 clean (out msg E w) -> level msg E w = l ->
                 clean (out msg E (snd (run s w cs))) /\ level msg E (snd (run s w cs)) = l).
     { induction cs as [|c cs IH]; intros s w Hf Hc Hlv; [auto|]. pose proof (Forall_inv Hf) as Hc0. pose proof (Forall_inv_tail Hf) as Hf'. cbv beta in Hc0.
       cbn [Client.run]. destruct c as [fuel ms|]; cbn [Client.do_call].
       - destruct (send_multiple fuel s w ms) as [[s' w'] r] eqn:Ecall.
-        destruct (send_multiple_clean _ _ _ _ _ _ _ Hc ltac:(rewrite Hlv; exact Hl) Hc0 Ecall) as [A B].
+        destruct (send_multiple_clean _ _ _ _ _ _ _ Hc ltac:(rewrite Hlv; exact Hl) ltac:(rewrite Hlv; exact HL) Hc0 Ecall) as [A B].
         apply IH; [exact Hf'|exact A|rewrite B; exact Hlv].
       - destruct (disconnect_clean s w Hc) as [A B]. destruct (disconnect s w) as [s' w']. cbn [snd] in *.
         apply IH; [exact Hf'|exact A|rewrite B; exact Hlv]. }
